@@ -24,7 +24,7 @@ from vpkit.children.c09_child import digest
 
 ID = "C09"
 N = {"quick": 64, "thorough": 1200}
-BUDGET = {"quick": 240.0, "thorough": 1500.0}
+BUDGET = {"quick": 240.0, "thorough": 700.0}
 RULE = ("case kinds: repeat (same call twice in-process), threads (num_threads None/1/2/4 with "
         "injected per-task delays, arrival orders logged), prior-reuse (linear->log->linear on one "
         "prior object vs fresh priors); post phase: 4 fresh processes with PYTHONHASHSEED "
